@@ -642,13 +642,21 @@ Definition summary_eqb (a b : summary) : bool :=
   | _, _ => false
   end.
 
+(* only what an outside reader can tell: a database file looks the same whether or not its
+   stream was closed; a debug text file too; an empty JSON document too *)
 Definition summarise (s : sstate) : summary :=
   match s with
   | SDb is_text st closed =>
     (* an SqlTextOutputStream that was not closed never dumped anything *)
-    SumDb closed (map (fun kv => (fst kv, if is_text && negb closed then 0
-                                         else Z.of_nat (length (snd kv)))) (d_db st))
-  | SFile _ rows closed => SumFile closed (Z.of_nat (length rows))
+    SumDb (if is_text then closed else true)
+          (map (fun kv => (fst kv, if is_text && negb closed then 0
+                                   else Z.of_nat (length (snd kv)))) (d_db st))
+  | SFile f rows closed =>
+    SumFile (match f with
+             | FTxt => true
+             | FJson => closed || match rows with [] => true | _ => false end
+             | _ => closed
+             end) (Z.of_nat (length rows))
   | SStub log _ _ closed => SumStub closed (Z.of_nat (length log))
   end.
 
@@ -677,7 +685,7 @@ Inductive case :=
        (expected : result (list (list Z * bool) * bool))
 (* a whole run through the application layer: reported success and per-output summaries *)
 | CApp (tpls : list template) (outs : list fmt) (rows : list (string * row))
-       (expected : result (list summary * bool))
+       (expected : option (list summary * bool))      (* None: the run raised *)
 | CAll (l : list case).
 
 Definition db_counts (s : dbst) : list (string * Z) :=
@@ -755,6 +763,10 @@ Fixpoint check_case (c : case) : bool :=
     let en := mkEnv (infer tpls) 1000 10000 in
     let got := do r <- app_run en (map (init_stream en) outs) rows;
                Ok (map summarise (fst r), snd r) in
-    result_eqb (fun a b => list_eqb summary_eqb (fst a) (fst b) && Bool.eqb (snd a) (snd b)) got e
+    match got, e with
+    | Ok a, Some b => list_eqb summary_eqb (fst a) (fst b) && Bool.eqb (snd a) (snd b)
+    | Err _, None => true
+    | _, _ => false
+    end
   | CAll l => forallb check_case l
   end.
